@@ -89,7 +89,7 @@ func utf8SliceRule(w *World, r *Result, only func(rel string) bool) int {
 				}
 			}
 			if !okLo || !okHi {
-				if pre, suf, ok := regexpLiteralEnds(info, fi, se.X); ok {
+				if pre, suf, ok := regexpLiteralEnds(w, info, fi, se.X); ok {
 					if loConst && lo > 0 && lo <= pre {
 						okLo = true
 						why = append(why, "the operand is a match of a constant regular expression with an ASCII literal prefix of that length")
@@ -144,7 +144,7 @@ func boundConst(info *types.Info, e ast.Expr, op ast.Expr) (int, bool) {
 
 // regexpLiteralEnds: operand is the parameter of a function literal passed to ReplaceAllStringFunc of a
 // package-level regexp compiled from a constant; returns the lengths of its ASCII literal prefix and suffix.
-func regexpLiteralEnds(info *types.Info, fi *FuncInfo, operand ast.Expr) (int, int, bool) {
+func regexpLiteralEnds(w *World, info *types.Info, fi *FuncInfo, operand ast.Expr) (int, int, bool) {
 	id := identOf(operand)
 	if id == nil {
 		return 0, 0, false
@@ -190,7 +190,32 @@ func regexpLiteralEnds(info *types.Info, fi *FuncInfo, operand ast.Expr) (int, i
 		}
 		return true
 	})
+	if !found {
+		// the operand is the parameter of a helper only ever called on such a match
+		if pat, ok := paramRegexpOrigin(w, fi, obj); ok {
+			pre, suf, found = literalEnds(pat)
+		}
+	}
 	return pre, suf, found
+}
+
+func literalEnds(pat string) (pre, suf int, ok bool) {
+	re, err := syntax.Parse(pat, syntax.Perl)
+	if err != nil {
+		return 0, 0, false
+	}
+	re = re.Simplify()
+	if re.Op == syntax.OpConcat && len(re.Sub) > 0 {
+		first, last := re.Sub[0], re.Sub[len(re.Sub)-1]
+		if first.Op == syntax.OpLiteral && first.Flags&syntax.FoldCase == 0 && isASCII(string(first.Rune)) {
+			pre = len(first.Rune)
+		}
+		if last.Op == syntax.OpLiteral && last.Flags&syntax.FoldCase == 0 && isASCII(string(last.Rune)) {
+			suf = len(last.Rune)
+		}
+		return pre, suf, true
+	}
+	return 0, 0, false
 }
 
 // regexpPattern: e is a package-level variable initialised by regexp.MustCompile(<constant>).
